@@ -21,7 +21,12 @@ P = {
                                   T: ("CfgsRS", dict(MaxCodes=2, MaxAT=6, MaxRT=4, MaxNow=3, Depth=10))},
                 genx={Q: ("CfgsOne", 4), T: ("CfgsStrategies", 5)},
                 sim={Q: ("CfgsStrategies", 400, 14), T: ("CfgsStrategies", 6000, 24)},
-                simb=dict(MaxCodes=3, MaxAT=14, MaxRT=10, MaxNow=4)),
+                simb=dict(MaxCodes=3, MaxAT=14, MaxRT=10, MaxNow=4),
+                more=[dict(family="C01b", mc={Q: ("CfgsExpiry", dict(MaxCodes=1, MaxAT=4, MaxRT=3, MaxNow=3, Depth=8)),
+                                               T: ("CfgsExpiry", dict(MaxCodes=2, MaxAT=5, MaxRT=4, MaxNow=4, Depth=10))},
+                           genx={Q: ("CfgsExpiry", 6), T: ("CfgsExpiry", 8)},
+                           sim={Q: ("CfgsExpiry", 200, 12), T: ("CfgsExpiry", 3000, 20)},
+                           simb=dict(MaxCodes=2, MaxAT=10, MaxRT=8, MaxNow=6))]),
     "C02": dict(family="C02", mc={Q: ("CfgsOne", dict(MaxCodes=1, MaxAT=3, MaxRT=2, MaxNow=3, Depth=4)),
                                   T: ("CfgsStrategies", dict(MaxCodes=2, MaxAT=4, MaxRT=3, MaxNow=3, Depth=5))},
                 genx={Q: ("CfgsOne", 2), T: ("CfgsOne", 3)},
@@ -36,7 +41,12 @@ P = {
                                   T: ("CfgsRefresh", dict(MaxCodes=2, MaxAT=6, MaxRT=5, MaxNow=2, Depth=10))},
                 genx={Q: ("CfgsOne", 4), T: ("CfgsOne", 6)},
                 sim={Q: ("CfgsRefresh", 400, 16), T: ("CfgsRefresh", 6000, 30)},
-                simb=dict(MaxCodes=3, MaxAT=16, MaxRT=14, MaxNow=5)),
+                simb=dict(MaxCodes=3, MaxAT=16, MaxRT=14, MaxNow=5),
+                more=[dict(family="C04b", mc={Q: ("CfgsExpiry", dict(MaxCodes=0, MaxAT=4, MaxRT=4, MaxNow=4, Depth=8)),
+                                               T: ("CfgsExpiry", dict(MaxCodes=0, MaxAT=6, MaxRT=6, MaxNow=5, Depth=11))},
+                           genx={Q: ("CfgsExpiry", 7), T: ("CfgsExpiry", 10)},
+                           sim={Q: ("CfgsExpiry", 100, 12), T: ("CfgsExpiry", 2000, 20)},
+                           simb=dict(MaxCodes=0, MaxAT=10, MaxRT=10, MaxNow=6))]),
     "C05": dict(family="C05", mc={Q: ("CfgsRS", dict(MaxCodes=1, MaxAT=3, MaxRT=3, MaxNow=0, MaxDev=1, Depth=4)),
                                   T: ("CfgsRefresh", dict(MaxCodes=1, MaxAT=4, MaxRT=3, MaxNow=0, MaxDev=1, Depth=5))},
                 genx={Q: ("CfgsRS", 3), T: ("CfgsRefresh", 4)},
@@ -56,7 +66,12 @@ P = {
                                   T: ("CfgsStrategies", dict(MaxCodes=2, MaxAT=5, MaxRT=3, MaxNow=2, Depth=7))},
                 genx={Q: ("CfgsOne", 3), T: ("CfgsOne", 4)},
                 sim={Q: ("CfgsStrategies", 400, 12), T: ("CfgsStrategies", 6000, 20)},
-                simb=dict(MaxCodes=3, MaxAT=10, MaxRT=8, MaxNow=4)),
+                simb=dict(MaxCodes=3, MaxAT=10, MaxRT=8, MaxNow=4),
+                more=[dict(family="C08b", mc={Q: ("CfgsExpiry", dict(MaxCodes=0, MaxAT=3, MaxRT=3, MaxNow=4, Depth=7)),
+                                               T: ("CfgsExpiry", dict(MaxCodes=0, MaxAT=4, MaxRT=4, MaxNow=4, Depth=9))},
+                           genx={Q: ("CfgsExpiry", 6), T: ("CfgsExpiry", 8)},
+                           sim={Q: ("CfgsExpiry", 100, 12), T: ("CfgsExpiry", 2000, 18)},
+                           simb=dict(MaxCodes=0, MaxAT=8, MaxRT=8, MaxNow=6))]),
     "C09": dict(family="C09", mc={Q: ("CfgsIntrospect", dict(MaxCodes=1, MaxAT=3, MaxRT=2, MaxNow=2, Depth=5)),
                                   T: ("CfgsIntrospect", dict(MaxCodes=2, MaxAT=4, MaxRT=3, MaxNow=3, Depth=6))},
                 genx={Q: ("CfgsOne", 3), T: ("CfgsIntrospect", 3)},
@@ -126,7 +141,10 @@ def selftest(binary, histories, wd, seed):
     """Demonstrate the binding: corrupted recorded fields must be rejected at exactly the
     corrupted step (DESIGN.md 4.4)."""
     rnd = random.Random(seed)
-    hs = sorted(histories, key=lambda h: -len(h["ops"]))[:80]
+    # histories that are likely to hand out tokens first (the corruptions need a successful result, a non-empty
+    # probe and an issued token), then the longest ones
+    issuing = {"redeem", "devpoll", "password", "ccreds", "refresh", "authorize"}
+    hs = sorted(histories, key=lambda h: (-len({o["op"] for o in h["ops"]} & issuing), -len(h["ops"])))[:80]
     if len(hs) < 3:
         raise Indeterminate("self-test: not enough histories")
     traces = exec_histories(binary, hs, wd, "self", shards=1)
@@ -315,6 +333,8 @@ def check(prop, tier, seed, replay=None):
         "selftest_corruptions_rejected": ncorrupt,
         "violation_replays": replays,
     }
+    if prop == "C04" and tier != Q:
+        cov["unbounded_family_core"] = apalache_core(wd)
     if table_cov:
         cov["decision_tables"] = table_cov
         cov["violation_replays"] = replays + table_cov.get("violation_replays", [])
